@@ -1,7 +1,7 @@
 (* C09 -- split and join are inverse; final lists render with the last separator.
    GENERATED from Properties/src/C09.props by tools/mkprops.py; property theorems only. *)
 From SP Require Import Model.Impl Model.Spec Model.Template.
-From SP Require Import Proofs.ImplSpec Proofs.SplitP Proofs.MapSepP Proofs.TemplateP.
+From SP Require Import Proofs.ImplSpec Proofs.SplitP Proofs.SplitInvP Proofs.MapSepP Proofs.TemplateP.
 
 (* for EVERY text and EVERY separator: empty, multi-character, non-ASCII,
    self-overlapping *)
@@ -33,6 +33,26 @@ Proof. exact run_pure_get_cached_split. Qed.
 Check C09_cached_split_is_split :
   forall (s sep : str), run_pure (get_cached_split s sep) = split s sep.
 Print Assumptions C09_cached_split_is_split.
+
+(* the other direction: a non-empty list whose items are free of the (one-character)
+   separator comes back from join-then-split; the side condition is necessary
+   (split_join_needs_free_items) *)
+Theorem C09_split_join_id :
+  forall (c : N) (l : list str),
+  l <> [] -> forallb (fun x => negb (mem_cp c x)) l = true -> split (join [c] l) [c] = l.
+Proof. exact split_join_id. Qed.
+Check C09_split_join_id :
+  forall (c : N) (l : list str),
+  l <> [] -> forallb (fun x => negb (mem_cp c x)) l = true -> split (join [c] l) [c] = l.
+Print Assumptions C09_split_join_id.
+
+(* one piece more than there are separator characters *)
+Theorem C09_piece_count :
+  forall (c : N) (s : str), length (split s [c]) = S (length (filter (N.eqb c) s)).
+Proof. exact split_char_count. Qed.
+Check C09_piece_count :
+  forall (c : N) (s : str), length (split s [c]) = S (length (filter (N.eqb c) s)).
+Print Assumptions C09_piece_count.
 
 (* a pipeline that ends in a list is rendered exactly as if a join with the most
    recent split/join separator (computed from the pipeline text alone) had been
